@@ -52,7 +52,7 @@ package index
 // reference second, and the streams copied from the reader get theirs from the reader's
 // reference second; the same shift is applied to first and last packet time.
 // ---------------------------------------------------------------------------
-//@ bv uint64
+//@ bv uint64 uint32
 
 // time arithmetic on whole seconds (assumed contracts of package time; valid while the values
 // involved are far from the int64 nanosecond range, i.e. within +-292 years of each other)
@@ -152,3 +152,31 @@ package index
 //@   loop 1 decreases len(buffer)
 //@   assert before return#7: relative: same_slice(buffer[:0], buffers[dir][p.streamOffset[dir]:][:0])
 //@   assert before return#8: relative: implies(len(res) != 0 || !isnil(res), same_slice(buffer[:0], buffers[dir][p.streamOffset[dir]:][:0]))
+
+// ---------------------------------------------------------------------------
+// C01: the order of the lookup tables. Each comparator handed to the sort equals its specification;
+// the one for the "first packet source" table orders by capture file name, then by the packet's number
+// in that file (import offset + 32 bit packet index) - the reader's binary search relies on exactly that.
+// Assumed: import offsets are multiples of 2^32 (AddStream masks them) and every packet's import id is in range.
+// ---------------------------------------------------------------------------
+//@ func (*Writer).Finalize$10
+//@   prop C01
+//@   requires a != nil && b != nil
+//@   ensures result == (a.StreamID < b.StreamID)
+//@ func (*Writer).Finalize$11
+//@   prop C01
+//@   requires a != nil && b != nil && int(a.PacketInfoStart) < len(w.packets) && int(b.PacketInfoStart) < len(w.packets)
+//@   requires forall(k, 0, len(w.packets), int(w.packets[k].ImportID) < len(importEntries))
+//@   requires forall(k, 0, len(importEntries), importEntries[k].offset & 4294967295 == 0)
+//@   ensures by_source: result == ite(importEntries[w.packets[a.PacketInfoStart].ImportID].filename != importEntries[w.packets[b.PacketInfoStart].ImportID].filename, \
+//@       importEntries[w.packets[a.PacketInfoStart].ImportID].filename < importEntries[w.packets[b.PacketInfoStart].ImportID].filename, \
+//@       importEntries[w.packets[a.PacketInfoStart].ImportID].offset + uint64(w.packets[a.PacketInfoStart].PacketIndex) < \
+//@       importEntries[w.packets[b.PacketInfoStart].ImportID].offset + uint64(w.packets[b.PacketInfoStart].PacketIndex))
+//@ func (*Writer).Finalize$12
+//@   prop C01
+//@   requires a != nil && b != nil
+//@   ensures result == (a.FirstPacketTimeNS < b.FirstPacketTimeNS)
+//@ func (*Writer).Finalize$13
+//@   prop C01
+//@   requires a != nil && b != nil
+//@   ensures result == (a.LastPacketTimeNS < b.LastPacketTimeNS)
